@@ -49,10 +49,27 @@ pub fn run_pipe(
   seed: u64,
   on_step: &mut dyn FnMut(&mut World, usize, &mut Rng),
 ) -> Result<RunOut, String> {
+  run_pipe_gap(flavor, pipe, policy, late, seed, 0, on_step)
+}
+
+/// like `run_pipe`, but the clock moves `gap` ns between the subscription and
+/// the first run of the executor (nothing runs and no timer fires meanwhile)
+pub fn run_pipe_gap(
+  flavor: Flavor,
+  pipe: &Pipe,
+  policy: Policy,
+  late: bool,
+  seed: u64,
+  gap: u64,
+  on_step: &mut dyn FnMut(&mut World, usize, &mut Rng),
+) -> Result<RunOut, String> {
   catch(|| {
     let mut rng = Rng::new(seed);
     let mut w = World::new(flavor, pipe.n_hot);
     w.subscribe(&pipe.chain, 1);
+    if gap > 0 {
+      crate::vtime::set_now(gap);
+    }
     if late {
       w.drive_late(&pipe.acts, policy, pipe.horizon, &mut rng, on_step);
     } else {
